@@ -78,6 +78,23 @@ def finder_props(why, spec):
     return re.findall(r"\((C\d+)\)", why)
 
 
+def finder_fallback(pid, uname, und, scratch, spec, b=None):
+    """Verus could not decide this unit (a function was rewritten beyond what the annotations / rules fit).
+    Bounded fallback, labelled as such: the unit's finder runs the real compiled code against the executable
+    contract; a concrete failing input is a violation in its own right, anything else leaves the unit undecided."""
+    fr = run_finder(uname, None, scratch)
+    if not (fr and fr.get("input") and pid in finder_props(fr["input"].get("why", ""), spec)):
+        return None
+    v = {"obligation": "%s/executable-contract (bounded fallback, Verus undecided): %s" % (uname, fr["input"]["why"][:200]), "unit": uname, "fn": "-", "kind": "runtime",
+         "message": "verifier undecided (%s); the real compiled code fails the executable form of the contract on a concrete input" % "; ".join(und)[:300],
+         "clause": fr["input"]["why"], "at": fr["input"]["case"], "spans": [], "props": [pid]}
+    if b is None:
+        b = U.Built()
+        b.functions = []
+    path = write_replay(pid, v, "finder", b, {"failing_input": fr["input"], "finder": fr})
+    return (v, path, True)
+
+
 def check_property(pid, tier, keep=False):
     t0 = time.time()
     seed = int(os.environ.get("VERIF_SEED", "0") or 0)
@@ -85,6 +102,7 @@ def check_property(pid, tier, keep=False):
     scratch = tempfile.mkdtemp(prefix="verif-%s-" % pid)
     violations, undecided, notes, known_hits = [], [], [], []
     cov_functions, rewrite_log, breakdown, trusted, cmds, clauses = [], [], [], {}, [], {}
+    cov_types = []
     verus_s = 0.0
     smt_us = 0
     thorough_info = {}
@@ -95,6 +113,9 @@ def check_property(pid, tier, keep=False):
                 b = U.build_unit(uname, scratch)
             except U.UnitError as e:
                 undecided.append("%s: %s" % (uname, e))
+                v = finder_fallback(pid, uname, [str(e)], scratch, spec)
+                if v:
+                    violations.append(v)
                 continue
             res = U.run_verus(b, seed=None)
             cmds.append(res["cmd"].replace(scratch, "<scratch>"))
@@ -102,8 +123,10 @@ def check_property(pid, tier, keep=False):
             failures, und = U.classify(b, res)
             undecided += ["%s: %s" % (uname, u) for u in und]
             for f in b.functions:
-                if pid in f.get("props", []) or not f.get("props"):
+                if f.get("kind") == "fn" and (pid in f.get("props", []) or not f.get("props")):
                     cov_functions.append(f)
+                elif f.get("kind") != "fn":
+                    cov_types.append(f)
             rewrite_log += b.log
             fb = U.function_breakdown(res, b)
             breakdown += [dict(x, unit=uname) for x in fb]
@@ -132,16 +155,9 @@ def check_property(pid, tier, keep=False):
                 else:
                     notes.append("obligation of %s failed (not attributed to %s): %s" % (",".join(f["props"]), pid, f["obligation"]))
             if und and not [f for f in failures if pid in f["props"]]:
-                # Verus could not decide this unit (e.g. a function was rewritten beyond what the annotations fit).
-                # Bounded fallback, labelled as such: the unit's finder runs the real compiled code against the
-                # executable contract; a concrete failing input is a violation in its own right.
-                fr = run_finder(uname, None, scratch)
-                if fr and fr.get("input") and pid in finder_props(fr["input"].get("why", ""), spec):
-                    v = {"obligation": "%s/executable-contract (bounded fallback, Verus undecided): %s" % (uname, fr["input"]["why"]), "unit": uname, "fn": "-", "kind": "runtime",
-                         "message": "verifier undecided (%s); the real compiled code fails the executable form of the contract on a concrete input" % "; ".join(und)[:300],
-                         "clause": fr["input"]["why"], "at": fr["input"]["case"], "spans": [], "props": [pid]}
-                    path = write_replay(pid, v, "finder", b, {"failing_input": fr["input"], "finder": fr})
-                    violations.append((v, path, True))
+                v = finder_fallback(pid, uname, und, scratch, spec, b)
+                if v:
+                    violations.append(v)
             if tier == "thorough" and not und:
                 import thorough
                 thorough_info[uname] = thorough.run(b, scratch, pid, seed, failures)
@@ -182,6 +198,7 @@ def check_property(pid, tier, keep=False):
             "explanation": "obligations = Verus verification units (functions and lemmas, each the conjunction of its ensures / call-site requires / loop invariants / decreases / safety conditions) generated from the unit files built from /repo's working tree on this run; discharged = those Z3 proved.",
             "clause_counts_in_extracted_functions": clauses,
             "functions_under_contract": [{k: f[k] for k in ("item", "file", "lines", "sha256", "match", "kind")} for f in cov_functions],
+            "types_extracted": [f["item"] for f in cov_types],
             "exec_functions_verified": [x["function"] for x in exec_fns if x["success"]],
             "samples": [x["function"] + " (" + str(x["mode"]) + ")" for x in own[:12]],
             "rewrite_rule_applications": rewrite_log[:200],
@@ -260,6 +277,15 @@ def main(argv):
             if not r["failures"]:
                 print("case %s: the real code satisfies the executable contract" % argv[1])
             return 1 if r["failures"] else 0
+        finally:
+            shutil.rmtree(d, ignore_errors=True)
+    if len(argv) >= 2 and argv[0] == "--run-finder":
+        import finders
+        d = tempfile.mkdtemp(prefix="verif-finder-")
+        try:
+            r = finders.FINDERS[argv[1]](d, None)
+            print(json.dumps(r, indent=1)[:4000])
+            return 1 if r.get("input") else 0
         finally:
             shutil.rmtree(d, ignore_errors=True)
     if len(argv) >= 2 and argv[0] == "--replay":
